@@ -7,7 +7,7 @@ import json, os, re, shutil, subprocess, sys
 
 prop, letter, src = sys.argv[1:4]
 needs = sys.argv[4] if len(sys.argv) > 4 else ""
-WT = "/tmp/wt/verify"
+WT = os.environ.get("VERIFY_WT", "/tmp/wt/verify")
 sid = "%s-%s" % (prop, letter)
 out = "/verif/seeded/" + sid
 
